@@ -51,4 +51,7 @@ def warm_quick():
                dict(workers=1)))
   for backend in ('legacy', 'orbax'):
     runs.append(('Checkpoint', ckpt_cfg(backend, True), dict(workers=16)))
+  runs.append(('LinenScope', 'LinenScope_mc.cfg', dict(workers=16, timeout=3000)))
+  runs.append(('LinenScope', 'LinenScope_mc_nosep.cfg', dict(workers=16)))
+  runs.append(('LinenScope', 'LinenScope_map.cfg', dict(workers=1, timeout=3000)))
   return runs
